@@ -107,6 +107,7 @@ def check_c05(A: Analysis) -> Dict[str, Any]:
     fill_at = {i: l for i, l in A.fills}
     n_obs = 0
     self_trades = 0
+    peak: Dict[int, float] = {}
     for i, (k, kw) in enumerate(A.items):
         if i in fill_at:
             l = fill_at[i]
@@ -115,6 +116,9 @@ def check_c05(A: Analysis) -> Dict[str, Any]:
             amount = Fraction(l.price) * l.volume
             model[l.buy_agent_id][0] -= amount
             model[l.sell_agent_id][0] += amount
+            for ag in (l.buy_agent_id, l.sell_agent_id):
+                # (rounding is relative to the largest amount ever added to this balance, not to what is left of it)
+                peak[ag] = max(peak.get(ag, 1.0), abs(float(amount)), abs(float(model[ag][0])))
             for ag, sign in ((l.buy_agent_id, 1), (l.sell_agent_id, -1)):
                 if l.market_id not in model[ag][1]:
                     raise Violation("C05.fill_on_inaccessible_market", f"agent {ag} traded market {l.market_id} it holds no position slot for")
@@ -125,11 +129,11 @@ def check_c05(A: Analysis) -> Dict[str, Any]:
                 if v != model[a][1]:
                     raise Violation("C05.shares_equal_endowment_plus_fills",
                                     f"at trace item {i} ({k}) agent {a} holds {v}, endowment folded with the fills so far gives {model[a][1]}")
-                if not close(c, model[a][0]):
+                if not close(c, model[a][0], abs_=1e-6 + 1e-9 * peak.get(a, 1.0)):
                     raise Violation("C05.cash_equal_endowment_plus_fills",
                                     f"at trace item {i} ({k}) agent {a} has cash {c!r}, endowment folded with the fills so far gives {float(model[a][0])!r}")
     for ag in sim.agents:
-        if dict(ag.asset_volumes) != model[ag.agent_id][1] or not close(ag.get_cash_amount(), model[ag.agent_id][0]):
+        if dict(ag.asset_volumes) != model[ag.agent_id][1] or not close(ag.get_cash_amount(), model[ag.agent_id][0], abs_=1e-6 + 1e-9 * peak.get(ag.agent_id, 1.0)):
             raise Violation("C05.final_holdings", f"agent {ag.agent_id} ends with {ag.cash_amount!r} {ag.asset_volumes}, fold gives "
                                                   f"{float(model[ag.agent_id][0])!r} {model[ag.agent_id][1]}")
         for mid in ag.asset_volumes:
@@ -142,7 +146,10 @@ def check_c05(A: Analysis) -> Dict[str, Any]:
             raise Violation("C05.shares_conserved", f"market {m.market_id}: total shares {tot0} -> {tot1}")
     cash0 = math.fsum(c for c, v in A.init_hold.values())
     cash1 = math.fsum(a.cash_amount for a in sim.agents)
-    if not math.isclose(cash0, cash1, rel_tol=1e-9, abs_tol=1e-6):
+    # "constant up to floating-point rounding": every fill adds and subtracts price x volume in double precision, so the error is
+    # relative to the amounts moved and to the balances they were added to (runaway prices move 1e18 and more)
+    scale = max([1.0, abs(cash0)] + [abs(float(l.price) * l.volume) for _, l in A.fills] + [abs(a.cash_amount) for a in sim.agents])
+    if not math.isclose(cash0, cash1, rel_tol=0.0, abs_tol=1e-9 * scale * max(1, len(A.fills)) + 1e-6):
         raise Violation("C05.cash_conserved", f"total cash {cash0!r} -> {cash1!r}")
     rounds = A.rounds()
     traders = {a for _, l in A.fills for a in (l.buy_agent_id, l.sell_agent_id)}
